@@ -9,7 +9,7 @@ from . import coretypes as ct
 from . import core_folds as cf
 from .vector_rules import VECTOR, FORWARDED
 
-EXPLANATION = 'Folds of the Vector class interpreted over component tokens: (R1) every operator applies the same-named Array operator to every component pair for 1-3 components and operand kinds (Vector, Array, number, ndarray, Quantity), results named/shaped consistently; (R2) component-count gate, unary/mapping methods, numpy dispatch on every component, nvec, norm recomputed after an in-place component change (no cache); (R3-R5) cross = determinant formula, norm = sqrt(sum of squares), dot = sum of products, as physical quantities (symbolic execution with units); (R6) construction from Arrays validates shape and unit of every component, the unit setter reaches every component. (R7) the conversion every component operation relies on is exact (shared); a component re-assigned after construction is seen by every later operation. (R8) every numeric result keeps its unit, integers included; (R9) norm is total on rows of zeros, boolean and integer components. (R10) v op y agrees component by component with v.c op y (values, units, refusals) for python 0, numbers, Arrays, Quantities; R5 folds dot over operands of different rank with broadcasting shapes; R9 covers infinite components.'
+EXPLANATION = 'Folds of the Vector class interpreted over component tokens: (R1) every operator applies the same-named Array operator to every component pair for 1-3 components and operand kinds (Vector, Array, number, ndarray, Quantity), results named/shaped consistently; (R2) component-count gate, unary/mapping methods, numpy dispatch on every component, nvec, norm recomputed after an in-place component change (no cache); (R3-R5) cross = determinant formula, norm = sqrt(sum of squares), dot = sum of products, as physical quantities (symbolic execution with units); (R6) construction from Arrays validates shape and unit of every component, the unit setter reaches every component. (R7) the conversion every component operation relies on is exact (shared); a component re-assigned after construction is seen by every later operation. (R8) every numeric result keeps its unit, integers included; (R9) norm is total on rows of zeros, boolean and integer components. (R10) v op y agrees component by component with v.c op y (values, units, refusals) for python 0, numbers, Arrays, Quantities; R5 folds dot over operands of different rank with broadcasting shapes; R9 covers infinite components. R2 also passes extra positional arguments through Vector._wrap_numpy; R5 includes a Vector whose components were attached in another order; R10 includes in-place operators on integer data.'
 NOT_DECIDED = 'numeric values; broadcasting between components of different shapes (rejected by the constructor)'
 TRUSTED = ('CPython ast', 'Array operator semantics as established by C02/C07', 'the interpreter sa/models.py (ModelEval) and its library models')
 
